@@ -109,6 +109,8 @@ def coq_op(o):
         return "(OUnalias %s)" % name
     if t == "funcdef":
         return "(OFuncDef %s %d%%N)" % (name, o.get("body", 0))
+    if t == "setstr":
+        return "(OSetString %s %s)" % (name, cstr(o.get("src", "")))
     if t == "setopt":
         return "(OSetOpt %d %s)" % (o.get("opt", 0), cb(o.get("on")))
     if t == "callbegin":
